@@ -42,3 +42,13 @@ chk('C09', 'model_checking',
     '4x4 (quick) / 6x6 (thorough) grid and of 3 on a 3x3 / 4x4 grid for replay (all fixed subsets x thirdPass, some with borders) and judges the recorded results of those and of seeded sets up to 30 rectangles.',
     'Output observed on a 2^-20 lattice. F14 / F20 (fixed rectangles moved through chains) are known findings recognised from axis-tight contact chains in the output.',
     'TLA+ declarative specification (difference-constraint theory); TLC-enumerated rectangle sets replayed; record validation', '4/C09')
+
+chk('C05', 'model_checking',
+    'OrthoPath.tla is a unit-step path model on the integer grid (a step is blocked iff its midpoint is strictly inside a rectangle; direction masks restrict first/last step). '
+    'B2: every recorded raw route must be a behaviour of that model (ends, exact axis-parallelism, freedom of every unit step, masks). B3: TLC searches the Hanan grid for a route '
+    'cheaper (length + P*bends, cost computed by the specification) than the implementation\'s; a hit is a concrete cheaper route. Scenes: TLC-enumerated sets of <=2 separated rectangles '
+    'on the even lattice, endpoints on the odd lattice, P in {1,3,10,50}, masks {all, single, opposite pairs}. Bends.tla: all 128 entries of the real Avoid::bends() are refuted-or-not against '
+    'the free-plane bend model (admissibility).',
+    'One connector per router (other connectors\' endpoints are not obstacles in the statement). With direction restrictions the oracle is "no cheaper route on the Hanan grid". '
+    'F22 (direction-restricted endpoints give non-minimal routes) is a known finding.',
+    'TLA+ path model; trace validation of routes; TLC refutation search seeded with the implementation\'s cost', '4/C05')
